@@ -681,48 +681,48 @@ def verdicts(case):
         x = ipkey(obj)
         if x not in stored[src[-1]]:
             return out
-    if check == 'raised':
-        want = 'result or CIM_ERR_INVALID_PARAMETER for %s' % (invalid or 'nothing')
-        if '/' in op:
-            n, f = op.split('/')
-            o1, o2 = run_op(conns, n, obj, flt), run_op(conns, f, obj, flt)
-            w = raised_what(o1, invalid)
-            if w and w == raised_what(o2, invalid):
-                out.append((w, want, [list(o1), list(o2)]))
-        else:
-            o = run_op(conns, op, obj, flt)
-            w = raised_what(o, invalid)
-            if w:
-                out.append((w, want, list(o)))
-    elif check == 'names-vs-full':
+    if check == 'names-vs-full':
         n, f = op.split('/')
         o1, o2 = run_op(conns, n, obj, flt), run_op(conns, f, obj, flt)
         w = nvf_what(o1, o2)
         if w:
             out.append((w, {n: list(o1)}, {f: list(o2)}))
-    elif check == 'reference-model':
-        o = run_op(conns, op, obj, flt)
-        exp = expected_for(fam, insts, src, x, flt)
-        w = ref_what(o, exp, x)
-        if w:
-            out.append((w, sorted(exp), list(o)))
-    elif check == 'monotone':
-        added = case['added']
-        base = {k: v for k, v in flt.items() if k not in added}
-        o_small, o_big = run_op(conns, op, obj, base), run_op(conns, op, obj, flt)
-        if o_small[0] != 'exc' and o_big[0] != 'exc' and keyset(o_big) - keyset(o_small):
-            out.append(('filter-adds-results', {'without %s' % '+'.join(added): list(o_small)},
-                        {'with': list(o_big)}))
-    elif check == 'symmetry':
-        other = case['other']
-        yobj = source_object(other, created)
-        if yobj is None:
-            return out
-        y = ipkey(yobj)
-        o_x = run_op(conns, op, obj, flt)
-        o_y = run_op(conns, op, yobj, mirror(flt))
-        if o_x[0] != 'exc' and o_y[0] != 'exc' and y in keyset(o_x) and x not in keyset(o_y):
-            out.append(('not-symmetric', '%s in %s(%s; mirrored filters)' % (x, op, y), list(o_y)))
+        return out
+    # per-operation checks; 'Names/Full' means: both operations show the same failure
+    per_op = []
+    for one in op.split('/'):
+        w = exp = obs = None
+        if check == 'raised':
+            o = run_op(conns, one, obj, flt)
+            w = raised_what(o, invalid)
+            exp, obs = 'result or CIM_ERR_INVALID_PARAMETER for %s' % (invalid or 'nothing'), list(o)
+        elif check == 'reference-model':
+            o = run_op(conns, one, obj, flt)
+            e = expected_for(fam, insts, src, x, flt)
+            w = ref_what(o, e, x)
+            exp, obs = sorted(e), list(o)
+        elif check == 'monotone':
+            added = case['added']
+            base = {k: v for k, v in flt.items() if k not in added}
+            o_small, o_big = run_op(conns, one, obj, base), run_op(conns, one, obj, flt)
+            if o_small[0] != 'exc' and o_big[0] != 'exc' and keyset(o_big) - keyset(o_small):
+                w = 'filter-adds-results'
+            exp, obs = {'without %s' % '+'.join(added): list(o_small)}, {'with': list(o_big)}
+        elif check == 'symmetry':
+            yobj = source_object(case['other'], created)
+            if yobj is None:
+                return out
+            y = ipkey(yobj)
+            o_x = run_op(conns, one, obj, flt)
+            o_y = run_op(conns, one, yobj, mirror(flt))
+            if o_x[0] != 'exc' and o_y[0] != 'exc' and y in keyset(o_x) and x not in keyset(o_y):
+                w = 'not-symmetric'
+            exp, obs = '%s in %s(%s; mirrored filters)' % (x, one, y), list(o_y)
+        per_op.append((w, exp, obs))
+    whats = {w for w, _e, _o in per_op}
+    if len(whats) == 1 and None not in whats:
+        out.append((per_op[0][0], per_op[0][1], [o for _w, _e, o in per_op]
+                    if len(per_op) > 1 else per_op[0][2]))
     return out
 
 
@@ -828,6 +828,16 @@ def judge_family(rep, acc, conns, gspec, gk, src, obj, fam, tuples, pair, insts,
             return
         rep.report(check, what, op, flt, case, exp, obs)
 
+    def per_op(tk, check, w1, w2, flt, case, exp, obs1, obs2):
+        """a failure both operations show identically is one failure of the pair"""
+        if w1 and w1 == w2:
+            report(tk, 2, check, w1, n_op + '/' + f_op, flt, case, exp, [obs1, obs2])
+        else:
+            if w1:
+                report(tk, 0, check, w1, n_op, flt, case, exp, obs1)
+            if w2:
+                report(tk, 1, check, w2, f_op, flt, case, exp, obs2)
+
     for flt in tuples:
         o1 = run_op(conns, n_op, obj, flt)
         o2 = run_op(conns, f_op, obj, flt)
@@ -836,21 +846,12 @@ def judge_family(rep, acc, conns, gspec, gk, src, obj, fam, tuples, pair, insts,
         invalid = invalid_filters(fam, flt, src[1] if level == 'class' else None)
         exp = expected_for(fam, insts, src, x, flt) if level == 'inst' else None
         nbad = len(found.get(tk, ()))
-        w1, w2 = raised_what(o1, invalid), raised_what(o2, invalid)
         want = 'result or CIM_ERR_INVALID_PARAMETER for %s' % (invalid or 'nothing')
-        if w1 and w1 == w2:
-            report(tk, 2, 'raised', w1, n_op + '/' + f_op, flt, base_case, want,
-                   [list(o1), list(o2)])
-        else:
-            if w1:
-                report(tk, 0, 'raised', w1, n_op, flt, base_case, want, list(o1))
-            if w2:
-                report(tk, 1, 'raised', w2, f_op, flt, base_case, want, list(o2))
+        per_op(tk, 'raised', raised_what(o1, invalid), raised_what(o2, invalid), flt, base_case,
+               want, list(o1), list(o2))
         if exp is not None:
-            for slot, op, o in ((0, n_op, o1), (1, f_op, o2)):
-                w = ref_what(o, exp, x)
-                if w:
-                    report(tk, slot, 'reference-model', w, op, flt, base_case, sorted(exp), list(o))
+            per_op(tk, 'reference-model', ref_what(o1, exp, x), ref_what(o2, exp, x), flt,
+                   base_case, sorted(exp), list(o1), list(o2))
         w = nvf_what(o1, o2)
         if w:
             report(tk, 2, 'names-vs-full', w, n_op + '/' + f_op, flt, base_case,
@@ -879,15 +880,18 @@ def judge_family(rep, acc, conns, gspec, gk, src, obj, fam, tuples, pair, insts,
         tk = tkey(fam, flt)
         for p, dropped in parents(fam, flt, evaluated):
             pk = tkey(fam, p)
-            for i, op in enumerate((n_op, f_op)):
+            ws = []
+            for i in (0, 1):
                 big, small = res[tk][i], res[pk][i]
                 if big[0] == 'exc' or small[0] == 'exc':
+                    ws.append(None)
                     continue
                 acc.count('monotone_checks')
-                if keyset(big) - keyset(small):
-                    report(tk, i, 'monotone', 'filter-adds-results', op, flt,
-                           dict(base_case, added=list(dropped)),
-                           {'without %s' % '+'.join(dropped): list(small)}, {'with': list(big)})
+                ws.append('filter-adds-results' if keyset(big) - keyset(small) else None)
+            if ws[0] or ws[1]:
+                per_op(tk, 'monotone', ws[0], ws[1], flt, dict(base_case, added=list(dropped)),
+                       {'without %s' % '+'.join(dropped): [list(res[pk][0]), list(res[pk][1])]},
+                       {'with': list(res[tk][0])}, {'with': list(res[tk][1])})
     if keep is not None:
         keep[tuple(src)] = {tkey(fam, flt): (flt, keyset(res[tkey(fam, flt)][0]),
                                              keyset(res[tkey(fam, flt)][1]),
@@ -938,7 +942,8 @@ def eval_graph(gspec, tier, acc, rep):
             if flt.get('ResultClass') is not None:
                 continue
             mk = tkey('assoc', mirror(flt))
-            for i, op in enumerate(TRAD_PAIRS['assoc']):
+            back_all = {}
+            for i in (0, 1):
                 if (st_n, st_f)[i] == 'exc':
                     continue
                 for y in sorted((names_set, full_set)[i]):
@@ -951,10 +956,15 @@ def eval_graph(gspec, tier, acc, rep):
                         continue
                     acc.count('symmetry_checks')
                     if x not in back[1 + i]:
-                        rep.report('symmetry', 'not-symmetric', op, flt,
-                                   {'graph': gspec, 'source': src, 'other': other},
-                                   '%s in %s(%s; mirrored filters)' % (x, op, y),
-                                   sorted(back[1 + i]))
+                        back_all.setdefault(y, {})[i] = sorted(back[1 + i])
+            for y in sorted(back_all):
+                fails = back_all[y]
+                ops = TRAD_PAIRS['assoc']
+                op = '/'.join(ops) if len(fails) == 2 else ops[list(fails)[0]]
+                rep.report('symmetry', 'not-symmetric', op, flt,
+                           {'graph': gspec, 'source': src, 'other': by_key[y]},
+                           '%s in %s(%s; mirrored filters)' % (x, op, y),
+                           [fails[i] for i in sorted(fails)])
     # Open... / Iter... variants (reduced set)
     if pl['variants'] is not None:
         if any('[pull]' in n for n, _f in pl['variants']['pairs']['assoc']):
